@@ -233,9 +233,9 @@ impl C08 {
         C08 {
             tier,
             seed,
-            n_gen: scaled(tier.pick(500, 30_000), scale),
-            n_comp: scaled(tier.pick(700, 40_000), scale),
-            n_shape: scaled(tier.pick(32, 800), scale),
+            n_gen: scaled(tier.pick(3_000, 30_000), scale),
+            n_comp: scaled(tier.pick(4_000, 40_000), scale),
+            n_shape: scaled(tier.pick(64, 800), scale),
         }
     }
 
